@@ -150,6 +150,10 @@ def enumerated(tier):
     for size in (0, 3):
       for idx in range(40):
         yield {'k': 'pause', 'mode': mode, 'size': size, 'idx': idx}
+        # the second thread's own time-out is already expired / expires while
+        # the first thread is held (time-outs must not weaken the exclusion)
+        yield {'k': 'pause', 'mode': mode, 'size': size, 'idx': idx, 't2': 0}
+        yield {'k': 'pause', 'mode': mode, 'size': size, 'idx': idx, 't2': 30}
   for k in ('write_expire', 'write_expired_before', 'read_expire',
             'read_expired_before', 'read_until_noise'):
     for size in (0, 1, 50):
@@ -340,7 +344,7 @@ def _check_write_log(log, frames, viol, ctx):
                  'detail': dict(ctx, seen=seen, want=len(frames))})
 
 
-def _pause_scenario(mode, size, target, yield_seed=None, n=2, msgs=1):
+def _pause_scenario(mode, size, target, yield_seed=None, n=2, msgs=1, t2=5000):
   """Runs n writer or reader threads; returns (transport, results, engine info)."""
   am = _M['adb_message']
   eng = _M['engine']
@@ -361,14 +365,14 @@ def _pause_scenario(mode, size, target, yield_seed=None, n=2, msgs=1):
     for j in range(msgs):
       f = frames[i * msgs + j]
       try:
-        ad.write_message(am.AdbMessage(*f), to(5000))
+        ad.write_message(am.AdbMessage(*f), to(5000 if i == 0 else t2))
       except Exception as e:  # pylint: disable=broad-except
         results.setdefault(i, []).append(('exc', repr(e)))
 
   def reader(i):
     for _ in range(msgs):
       try:
-        m = ad.read_message(to(5000))
+        m = ad.read_message(to(5000 if i == 0 else t2))
         results.setdefault(i, []).append((m.command, m.arg0, m.arg1, m.data))
       except Exception as e:  # pylint: disable=broad-except
         results.setdefault(i, []).append(('exc', type(e).__name__))
@@ -450,17 +454,18 @@ def run_pause(case):
     return {'sig': None, 'violations': [], 'counters': {}, 'sample': False,
             'evaluations': 0}
   target = pts[idx]
-  tr, frames, results, info = _pause_scenario(mode, size, target)
+  t2 = case.get('t2', 5000)
+  tr, frames, results, info = _pause_scenario(mode, size, target, t2=t2)
   viol = []
   ctx = {'mode': mode, 'point': [list(target[0]), target[1]],
-         'blocked': info.get('blocked')}
+         'blocked': info.get('blocked'), 'second_thread_timeout_ms': t2}
   if mode == 'writers':
     if results:
       viol.append({'mechanism': 'writer-raised', 'detail': dict(ctx, r=repr(results))})
     _check_write_log(tr.log, frames, viol, ctx)
   else:
     _check_readers(frames, results, viol, ctx)
-  return _result({'pause': [mode, size, list(target[0]), target[1]]}, viol,
+  return _result({'pause': [mode, size, list(target[0]), target[1], t2]}, viol,
                  {'schedules_paused': 1 if info.get('reached') else 0,
                   'pause_not_reached': 0 if info.get('reached') else 1,
                   'schedules_action_blocked': 1 if info.get('blocked') else 0,
